@@ -10,13 +10,13 @@ use neurons::objective::Function;
 
 pub fn meta(_ctx: &Ctx) -> Meta {
     Meta {
-        rule: "7 objectives x clamps {none,(-0.2,0.2),(-1,1),(0,0.5),(0.3,0.3),(-inf,0.2),(-0.2,inf),(-inf,inf)} x ranks {vector n<=3; 1x1xn, nx1x1, 1xnx1; 2x2x2; vectors of 9, 10, 17, 40, 100 and tensors 1x3x3, 3x3x3, 2x4x5 with every rotation of the pair list} x ALL tuples of (prediction,target) pairs over the in-domain alphabets incl. boundaries: regression {-2,-0.5,0,0.5,1,3}^2 (plus, in tuples of <= 2 pairs, the near-equal values {0.5, next float after 0.5, 0, -0, +-1e-8, 1e-22, 1e-25, -1e-30} (differences whose square underflows)), probabilistic predictions {0,1e-7,1e-6,0.25,0.5,1-1e-6,1} x targets {0,0.25,0.5,1}. Oracles: documented loss/gradient formulas (f64), gradient shape = prediction shape, clamped gradient = clamp(unclamped) bit-exact, CxHxW result = vector result bit-exact, dual-number derivative of the reference loss for AE/MSE/BCE/KL away from kinks and the eps-clamp, loss finite. Non-trivial = tuple with >=2 distinct pairs or a boundary value".into(),
+        rule: "7 objectives x clamps {none,(-0.2,0.2),(-1,1),(0,0.5),(0.3,0.3),(-inf,0.2),(-0.2,inf),(-inf,inf)} x ranks {vector n<=3; 1x1xn, nx1x1, 1xnx1; 2x2x2; vectors of 9, 10, 17, 40, 100 and tensors 1x3x3, 3x3x3, 2x4x5 with every rotation of the pair list; image-sized outputs 2x32x32, 3x40x30, 1x64x64, 8x16x16, 4x3x300 and vectors of 3600 / 4096 with every third rotation} x ALL tuples of (prediction,target) pairs over the in-domain alphabets incl. boundaries: regression {-2,-0.5,0,0.5,1,3}^2 (plus, in tuples of <= 2 pairs, the near-equal values {0.5, next float after 0.5, 0, -0, +-1e-8, 1e-22, 1e-25, -1e-30} (differences whose square underflows)), probabilistic predictions {0,1e-7,1e-6,0.25,0.5,1-1e-6,1} x targets {0,0.25,0.5,1}. Oracles: documented loss/gradient formulas (f64), gradient shape = prediction shape, clamped gradient = clamp(unclamped) bit-exact, CxHxW result = vector result bit-exact, dual-number derivative of the reference loss for AE/MSE/BCE/KL away from kinks and the eps-clamp, loss finite. Non-trivial = tuple with >=2 distinct pairs or a boundary value".into(),
         bound: "tuples of n <= 3 pairs complete (thorough: n <= 4 on vectors); 2x2x2 and the larger shapes with all 36 / 28 rotations of the pair list".into(),
         exhaustive: true,
         assumptions: vec![
             "RMSE gradient read as -(a-p)/(sqrt((a-p)^2)*n), the grouping the documentation's formula leaves open".into(),
             "0*ln(0) = 0 in KL-divergence (the loss must be finite for targets that are exactly 0)".into(),
-            "tolerance 2e-5 relative + 1e-6 absolute on losses and gradients".into(),
+            "tolerance 2e-5 relative + 1e-6 absolute on losses and gradients; the loss of n elements additionally gets n*6e-8 relative (a sequential single-precision sum of n same-signed terms is off by up to n-1 roundings)".into(),
         ],
     }
 }
@@ -70,6 +70,12 @@ fn core_len(o: Obj) -> usize {
     }
 }
 
+/// the loss is a sum of n same-signed terms accumulated in single precision: a sequential sum is off by up to
+/// (n-1) roundings of 2^-24 relative to the sum itself, which matters from a few hundred terms on
+fn close_sum(a: f64, b: f64, n: usize) -> bool {
+    (a - b).abs() <= (2e-5 + 6e-8 * n as f64) * b.abs().max(a.abs()) + 1e-6
+}
+
 fn close(a: f64, b: f64) -> bool {
     (a - b).abs() <= 2e-5 * b.abs().max(a.abs()) + 1e-6
 }
@@ -84,14 +90,26 @@ fn shape_of(name: &str, n: usize) -> Dims {
         "1x3x3" => Dims::Chw(1, 3, 3),
         "3x3x3" => Dims::Chw(3, 3, 3),
         "2x4x5" => Dims::Chw(2, 4, 5),
-        _ => panic!("shape {}", name),
+        _ => {
+            // "CxHxW" written out (image-sized outputs)
+            let d: Vec<usize> = name.split('x').map(|x| x.parse().unwrap_or_else(|_| panic!("shape {}", name))).collect();
+            assert!(d.len() == 3 && d[0] * d[1] * d[2] == n, "shape {} for {} values", name, n);
+            Dims::Chw(d[0], d[1], d[2])
+        }
     }
 }
 
 pub fn check(case: &Kv, rep: &mut Report) {
     let o = Obj::parse(case.get("obj"));
     let ps = pairs(o);
-    let idx: Vec<usize> = case.list("pairs").iter().map(|s| s.parse().unwrap()).collect();
+    // "gen" = rot,stride,len: the pair list (rot + e*stride) mod m for e < len, written compactly for long lists
+    let idx: Vec<usize> = match case.opt("gen") {
+        Some(g) => {
+            let q: Vec<usize> = g.split(',').map(|x| x.parse().unwrap()).collect();
+            (0..q[2]).map(|e| (q[0] + e * q[1]) % ps.len()).collect()
+        }
+        None => case.list("pairs").iter().map(|s| s.parse().unwrap()).collect(),
+    };
     let n = idx.len();
     let p: Vec<f32> = idx.iter().map(|i| ps[*i].0).collect();
     let t: Vec<f32> = idx.iter().map(|i| ps[*i].1).collect();
@@ -140,7 +158,7 @@ pub fn check(case: &Kv, rep: &mut Report) {
             format!("loss({:?}, {:?}) = {}", p, t, loss),
             case,
         );
-    } else if !close(loss as f64, rl) {
+    } else if !close_sum(loss as f64, rl, n) {
         rep.violate(key("loss value"), format!("loss({:?}, {:?}) = {:e}, documented formula gives {:e}", p, t, loss, rl), case);
     }
     let rg = ro::gradient(o, &p64, &t64);
@@ -258,6 +276,13 @@ pub fn cases(thorough: bool) -> Vec<Kv> {
                         out.push(Kv::new().put("obj", o.name()).put("shape", s).put("pairs", &list));
                     }
                 }
+            }
+        }
+        // image-sized outputs (several channels of planes with >= 1024 elements, and their flat counterparts): sizes at which
+        // an implementation might switch to a per-channel, blocked or parallel evaluation
+        for rot in (0..m).step_by(3) {
+            for (shape, len) in [("2x32x32", 2048usize), ("3x40x30", 3600), ("1x64x64", 4096), ("8x16x16", 2048), ("4x3x300", 3600), ("vec", 4096), ("vec", 3600)] {
+                out.push(Kv::new().put("obj", o.name()).put("shape", shape).put("gen", format!("{},{},{}", rot, 7, len)));
             }
         }
         for rot in 0..m {
